@@ -478,7 +478,37 @@ type variant struct {
 	Knob  string // literal inlen rows ws optspace kwcase comment
 	Site  string
 	What  string
+	Next  string // kind of the token after the changed gap / of the changed token
 	Class string // equivalent | structural
+	// render deltas relative to the base token list (nil for variants that rebuild the list)
+	gaps map[int]string
+	kw   map[int]int
+	lits map[int]string
+	pure bool // expressible as deltas (can be combined with another variant)
+}
+
+func tokDesc(t tok) string {
+	switch t.K {
+	case OP:
+		return "op:" + t.T
+	case LIT:
+		if t.IntOnly {
+			return "lit:int"
+		}
+		return "lit"
+	}
+	return kindName[t.K]
+}
+
+func applyLits(toks []tok, lits map[int]string) []tok {
+	if len(lits) == 0 {
+		return toks
+	}
+	cp := append([]tok(nil), toks...)
+	for i, l := range lits {
+		cp[i].T = l
+	}
+	return cp
 }
 
 func contextOfLit(toks []tok, i int) string {
@@ -500,8 +530,18 @@ func contextOfLit(toks []tok, i int) string {
 func equivalents(s spec) []variant {
 	toks := build(s)
 	var out []variant
-	add := func(sql, knob, site, what string) {
+	add := func(gaps map[int]string, kw map[int]int, lits map[int]string, knob, site, what, next string) {
+		out = append(out, variant{SQL: render(applyLits(toks, lits), gaps, kw), Knob: knob, Site: site, What: what, Next: next,
+			Class: "equivalent", gaps: gaps, kw: kw, lits: lits, pure: true})
+	}
+	addSQL := func(sql, knob, site, what string) {
 		out = append(out, variant{SQL: sql, Knob: knob, Site: site, What: what, Class: "equivalent"})
+	}
+	nextOf := func(i int) string {
+		if i < len(toks) {
+			return tokDesc(toks[i])
+		}
+		return "end"
 	}
 	// literals: one position at a time, and all positions at once
 	for i, t := range toks {
@@ -516,22 +556,18 @@ func equivalents(s spec) []variant {
 			if l == t.T {
 				continue
 			}
-			cp := append([]tok(nil), toks...)
-			cp[i].T = l
-			add(render(cp, nil, nil), "literal", contextOfLit(toks, i), litClass(l))
+			add(nil, nil, map[int]string{i: l}, "literal", contextOfLit(toks, i), litClass(l), nextOf(i+1))
 		}
 	}
 	for _, l := range litAlphabet {
-		cp := append([]tok(nil), toks...)
-		n := 0
-		for i := range cp {
-			if cp[i].K == LIT && !cp[i].IntOnly {
-				cp[i].T = l
-				n++
+		lits := map[int]string{}
+		for i := range toks {
+			if toks[i].K == LIT && !toks[i].IntOnly {
+				lits[i] = l
 			}
 		}
-		if n > 1 {
-			add(render(cp, nil, nil), "literal", "all", litClass(l))
+		if len(lits) > 1 {
+			add(nil, nil, lits, "literal", "all", litClass(l), "")
 		}
 	}
 	// list lengths
@@ -539,7 +575,7 @@ func equivalents(s spec) []variant {
 		for _, n := range []int{1, 3, 5} {
 			s2 := s
 			s2.InLen = n
-			add(render(build(s2), nil, nil), "inlen", "in", strconv.Itoa(n))
+			addSQL(render(build(s2), nil, nil), "inlen", "in", strconv.Itoa(n))
 		}
 	}
 	if s.Rows > 0 {
@@ -549,7 +585,7 @@ func equivalents(s spec) []variant {
 			}
 			s2 := s
 			s2.Rows = n
-			add(render(build(s2), nil, nil), "rows", "values", strconv.Itoa(n))
+			addSQL(render(build(s2), nil, nil), "rows", "values", strconv.Itoa(n))
 		}
 	}
 	// whitespace
@@ -560,21 +596,21 @@ func equivalents(s spec) []variant {
 		switch gk {
 		case gReq, gOptS:
 			for _, w := range wsAlphabet {
-				add(render(toks, map[int]string{i: w}, nil), "ws", site, wsName[w])
+				add(map[int]string{i: w}, nil, nil, "ws", site, wsName[w], nextOf(i))
 				if all[w] == nil {
 					all[w] = map[int]string{}
 				}
 				all[w][i] = w
 			}
 			if gk == gOptS {
-				add(render(toks, map[int]string{i: ""}, nil), "optspace", site, "removed")
+				add(map[int]string{i: ""}, nil, nil, "optspace", site, "removed", nextOf(i))
 			}
 		case gOptN:
-			add(render(toks, map[int]string{i: " "}, nil), "optspace", site, "added")
+			add(map[int]string{i: " "}, nil, nil, "optspace", site, "added", nextOf(i))
 		}
 	}
 	for _, w := range wsAlphabet {
-		add(render(toks, all[w], nil), "ws", "all_gaps", wsName[w])
+		add(all[w], nil, nil, "ws", "all_gaps", wsName[w], "")
 	}
 	// all optional spaces removed / added at once
 	rm, ad := map[int]string{}, map[int]string{}
@@ -587,16 +623,17 @@ func equivalents(s spec) []variant {
 		}
 	}
 	if len(rm) > 1 {
-		add(render(toks, rm, nil), "optspace", "all", "removed")
+		add(rm, nil, nil, "optspace", "all", "removed", "")
 	}
 	if len(ad) > 1 {
-		add(render(toks, ad, nil), "optspace", "all", "added")
+		add(ad, nil, nil, "optspace", "all", "added", "")
 	}
-	add(render(toks, map[int]string{0: " "}, nil), "ws", "leading", "sp")
-	add(render(toks, map[int]string{0: "\n\t"}, nil), "ws", "leading", "mixed")
-	add(render(toks, map[int]string{len(toks): " "}, nil), "ws", "trailing", "sp")
-	add(render(toks, map[int]string{len(toks): "\n"}, nil), "ws", "trailing", "nl")
+	add(map[int]string{0: " "}, nil, nil, "ws", "leading", "sp", nextOf(0))
+	add(map[int]string{0: "\n\t"}, nil, nil, "ws", "leading", "mixed", nextOf(0))
+	add(map[int]string{len(toks): " "}, nil, nil, "ws", "trailing", "sp", "end")
+	add(map[int]string{len(toks): "\n"}, nil, nil, "ws", "trailing", "nl", "end")
 	// keyword case
+	modeName := [...]string{"", "upper", "title", "alternating"}
 	allKw := map[int]map[int]int{1: {}, 2: {}, 3: {}}
 	for i, t := range toks {
 		if t.K != KW && t.K != FN {
@@ -606,12 +643,12 @@ func equivalents(s spec) []variant {
 			if mode == 3 && len(t.T) < 2 {
 				continue
 			}
-			add(render(toks, nil, map[int]int{i: mode}), "kwcase", t.T, [...]string{"", "upper", "title", "alternating"}[mode])
+			add(nil, map[int]int{i: mode}, nil, "kwcase", t.T, modeName[mode], nextOf(i+1))
 			allKw[mode][i] = mode
 		}
 	}
 	for mode := 1; mode <= 3; mode++ {
-		add(render(toks, nil, allKw[mode]), "kwcase", "all", [...]string{"", "upper", "title", "alternating"}[mode])
+		add(nil, allKw[mode], nil, "kwcase", "all", modeName[mode], "")
 	}
 	// comments
 	for i := 1; i < len(toks); i++ {
@@ -621,15 +658,52 @@ func equivalents(s spec) []variant {
 		}
 		site := gapSite(toks[i-1], toks[i])
 		for _, cf := range commentForms {
-			add(render(toks, map[int]string{i: cf.text}, nil), "comment", site, cf.name)
+			add(map[int]string{i: cf.text}, nil, nil, "comment", site, cf.name, nextOf(i))
 		}
 	}
-	add(render(toks, map[int]string{0: "/* c */ "}, nil), "comment", "leading", "mlc")
-	add(render(toks, map[int]string{0: "-- c\n"}, nil), "comment", "leading", "dashdash_line")
-	add(render(toks, map[int]string{len(toks): " /* c */"}, nil), "comment", "trailing", "mlc")
-	add(render(toks, map[int]string{len(toks): " -- c"}, nil), "comment", "trailing", "dashdash")
-	add(render(toks, map[int]string{len(toks): " # c"}, nil), "comment", "trailing", "hash")
+	add(map[int]string{0: "/* c */ "}, nil, nil, "comment", "leading", "mlc", nextOf(0))
+	add(map[int]string{0: "-- c\n"}, nil, nil, "comment", "leading", "dashdash_line", nextOf(0))
+	add(map[int]string{len(toks): " /* c */"}, nil, nil, "comment", "trailing", "mlc", "end")
+	add(map[int]string{len(toks): " -- c"}, nil, nil, "comment", "trailing", "dashdash", "end")
+	add(map[int]string{len(toks): " # c"}, nil, nil, "comment", "trailing", "hash", "end")
 	return out
+}
+
+// combine merges two delta variants that touch different sites.
+func combine(toks []tok, a, b variant) (variant, bool) {
+	if !a.pure || !b.pure {
+		return variant{}, false
+	}
+	gaps, kw, lits := map[int]string{}, map[int]int{}, map[int]string{}
+	for k, v := range a.gaps {
+		gaps[k] = v
+	}
+	for k, v := range b.gaps {
+		if _, dup := gaps[k]; dup {
+			return variant{}, false
+		}
+		gaps[k] = v
+	}
+	for k, v := range a.kw {
+		kw[k] = v
+	}
+	for k, v := range b.kw {
+		if _, dup := kw[k]; dup {
+			return variant{}, false
+		}
+		kw[k] = v
+	}
+	for k, v := range a.lits {
+		lits[k] = v
+	}
+	for k, v := range b.lits {
+		if _, dup := lits[k]; dup {
+			return variant{}, false
+		}
+		lits[k] = v
+	}
+	return variant{SQL: render(applyLits(toks, lits), gaps, kw), Knob: "pair:" + a.Knob + "+" + b.Knob,
+		Site: a.Site + "+" + b.Site, What: a.What + "+" + b.What, Next: a.Next + "+" + b.Next, Class: "equivalent"}, true
 }
 
 var otherOps = map[string][]string{
@@ -776,6 +850,7 @@ type kase struct {
 	Knob    string `json:"knob"`
 	Site    string `json:"site"`
 	What    string `json:"what"`
+	Next    string `json:"next"`
 	Kind    string `json:"kind"`
 }
 
@@ -805,7 +880,7 @@ func judge(r *ev.Run, g *rig, k kase) bool {
 	}
 	if os.Getenv("C36_DUMP") != "" {
 		dumpMu.Lock()
-		key := k.Class + " | " + k.Knob + " | " + k.Site + " | " + k.What
+		key := k.Class + " | " + k.Knob + " | " + k.Site + " | " + k.What + " | next=" + k.Next
 		dump[key]++
 		if _, ok := dumpEx[key]; !ok {
 			dumpEx[key] = fmt.Sprintf("%q -> %q   [%s] vs [%s]", k.Base, k.Variant, mysql.GetFingerprint(k.Base), mysql.GetFingerprint(k.Variant))
@@ -815,7 +890,7 @@ func judge(r *ev.Run, g *rig, k kase) bool {
 	r.Violation(ev.Witness{
 		Summary: fmt.Sprintf("blacklisted %q: %s variant (%s %s %s) %q %s; fingerprints %q vs %q",
 			k.Base, k.Class, k.Knob, k.Site, k.What, k.Variant, verb, mysql.GetFingerprint(k.Base), mysql.GetFingerprint(k.Variant)),
-		Features: map[string]string{"class": k.Class, "knob": k.Knob, "site": k.Site, "what": k.What, "stmt": k.Kind},
+		Features: map[string]string{"class": k.Class, "knob": k.Knob, "site": k.Site, "what": k.What, "next": k.Next, "stmt": k.Kind},
 		Case:     k,
 	})
 	return false
@@ -829,7 +904,7 @@ func main() {
 		g := newRig([]string{k.Base})
 		if g.allowed(k.Base) {
 			r.Violation(ev.Witness{Summary: "blacklisted statement itself is allowed: " + k.Base,
-				Features: map[string]string{"class": "identity", "knob": "none", "site": "", "what": "", "stmt": k.Kind}, Case: k})
+				Features: map[string]string{"class": "identity", "knob": "none", "site": "", "what": "", "next": "", "stmt": k.Kind}, Case: k})
 		}
 		judge(r, g, k)
 		r.Set("evaluations", 1)
@@ -860,7 +935,7 @@ func main() {
 		n++
 		if g.allowed(base) {
 			r.Violation(ev.Witness{Summary: "blacklisted statement itself is allowed: " + base,
-				Features: map[string]string{"class": "identity", "knob": "none", "site": "", "what": "", "stmt": s.Kind},
+				Features: map[string]string{"class": "identity", "knob": "none", "site": "", "what": "", "next": "", "stmt": s.Kind},
 				Case:     kase{Base: base, Variant: base, Class: "equivalent", Kind: s.Kind}})
 		}
 		var passed []variant
@@ -873,7 +948,7 @@ func main() {
 				ev.Fatalf("namespace without blacklist rejects %q", v.SQL)
 			}
 			n++
-			kk := kase{Base: base, Variant: v.SQL, Class: v.Class, Knob: v.Knob, Site: v.Site, What: v.What, Kind: s.Kind}
+			kk := kase{Base: base, Variant: v.SQL, Class: v.Class, Knob: v.Knob, Site: v.Site, What: v.What, Next: v.Next, Kind: s.Kind}
 			if judge(r, g, kk) {
 				r.Distinct("nontrivial", "rej|"+base+"|"+v.SQL)
 				r.Distinct("knobs_rejected", v.Knob)
@@ -886,7 +961,7 @@ func main() {
 		for _, v := range structurals(s, toks) {
 			mustParse(p, v.SQL, v.Knob+"/"+v.Site+"/"+v.What)
 			n++
-			kk := kase{Base: base, Variant: v.SQL, Class: v.Class, Knob: v.Knob, Site: v.Site, What: v.What, Kind: s.Kind}
+			kk := kase{Base: base, Variant: v.SQL, Class: v.Class, Knob: v.Knob, Site: v.Site, What: v.What, Next: v.Next, Kind: s.Kind}
 			if judge(r, g, kk) {
 				r.Distinct("nontrivial", "alw|"+base+"|"+v.SQL)
 				r.Distinct("mutants_allowed", v.Knob)
@@ -909,10 +984,25 @@ func main() {
 			n++
 			judge(r, g, kase{Base: base, Variant: other, Class: "structural", Knob: "other_base", Site: specs[j].Kind, What: specs[j].String(), Kind: s.Kind})
 		}
+		// thorough: every pair of individually passing single-knob variants (different sites)
+		if r.Thorough() {
+			pairs := int64(0)
+			for x := 0; x < len(passed) && !r.TimeUp(); x++ {
+				for y := x + 1; y < len(passed); y++ {
+					pv, ok := combine(toks, passed[x], passed[y])
+					if !ok || pv.SQL == base {
+						continue
+					}
+					pairs++
+					judge(r, g, kase{Base: base, Variant: pv.SQL, Class: "equivalent", Knob: pv.Knob, Site: pv.Site, What: pv.What, Next: pv.Next, Kind: s.Kind})
+				}
+			}
+			n += pairs
+			r.Add("pair_variants", pairs)
+		}
 		r.Add("evaluations", n)
 		r.Add("bases", 1)
 		r.Distinct("fingerprints", mysql.GetFingerprint(base))
-		_ = passed
 	})
 	if r.TimeUp() {
 		r.Capped("time budget")
